@@ -801,6 +801,82 @@ pub fn odk_case(n: usize, signs: &str, prior: &[&str], rd: VecDeque<REv>, wr: Ve
 /// A serial port behind an Rc so that the test keeps access after handing it to an owner.
 #[derive(Debug)]
 pub struct RcPort(pub Rc<RefCell<MockPort>>);
+thread_local! {
+    /// the device record of the most recent `RcPort::default()` (so that a probe can look at a port it never held)
+    pub static LAST_DEFAULT_DEV: RefCell<Option<Rc<RefCell<DevState>>>> = const { RefCell::new(None) };
+}
+/// A port "as the operating system hands it out": 110 baud, 5 data bits, even parity, two stop bits, software flow control.
+impl Default for RcPort {
+    fn default() -> Self {
+        let p = MockPort::new(VecDeque::new(), VecDeque::new(), parse_settings("0,0,2,1,1").expect("settings"), FailAt::Never);
+        let _ = LAST_DEFAULT_DEV.try_with(|d| *d.borrow_mut() = Some(p.dev.clone())); // (not while thread-locals are being torn down)
+        RcPort(Rc::new(RefCell::new(p)))
+    }
+}
+/// A bus that can be made out of nothing and never answers.
+#[derive(Debug, Default)]
+pub struct DefBus;
+impl SignBus for DefBus {
+    fn process_message<'a>(&mut self, _: Message<'_>) -> Result<Option<Message<'a>>, Box<dyn std::error::Error + Send + Sync>> {
+        Ok(None)
+    }
+}
+
+/// Compile-time probes for ways of obtaining a transport object other than its `try_new` (none exists on the pinned
+/// tree): `Default` and `From<port>` / `From<(port, bus)>`.  An inherent function, applicable only when its bound
+/// holds, shadows the blanket trait's fallback.  However the object was made, the port inside it must be set up.
+pub struct CtorProbe<T>(std::marker::PhantomData<T>);
+pub trait NoDefaultCtor<T> {
+    fn by_default() -> Option<T> {
+        None
+    }
+}
+impl<T> NoDefaultCtor<T> for CtorProbe<T> {}
+impl<T: Default> CtorProbe<T> {
+    pub fn by_default() -> Option<T> {
+        Some(T::default())
+    }
+}
+pub trait NoFromCtor<T, S> {
+    fn by_from(_s: S) -> Option<T> {
+        None
+    }
+}
+impl<T, S> NoFromCtor<T, S> for CtorProbe<(T, S)> {}
+impl<T: From<S>, S> CtorProbe<(T, S)> {
+    pub fn by_from(s: S) -> Option<T> {
+        Some(T::from(s))
+    }
+}
+
+/// `portctor WHICH`: "fine" when that constructor does not exist or leaves its port at 19200 8N1 without flow control.
+pub fn port_ctor_case(which: &str) -> Option<String> {
+    let _ = LAST_DEFAULT_DEV.try_with(|d| *d.borrow_mut() = None);
+    #[allow(unused_imports)]
+    let made: bool = match which {
+        "odk-default" => <CtorProbe<Odk<RcPort, DefBus>>>::by_default().is_some(),
+        "serial-default" => <CtorProbe<SerialSignBus<RcPort>>>::by_default().is_some(),
+        "serial-from" => <CtorProbe<(SerialSignBus<RcPort>, RcPort)>>::by_from(RcPort::default()).is_some(),
+        "odk-from" => <CtorProbe<(Odk<RcPort, DefBus>, (RcPort, DefBus))>>::by_from((RcPort::default(), DefBus)).is_some(),
+        _ => return None,
+    };
+    if !made {
+        return Some("fine".to_string());
+    }
+    let dev = LAST_DEFAULT_DEV.try_with(|d| d.borrow().clone()).ok().flatten();
+    Some(match dev {
+        None => "fine".to_string(), // made without any of this harness's ports inside: nothing to set up
+        Some(dev) => {
+            let st = show_settings(&dev.borrow().settings);
+            if st == "7,3,0,0,0" {
+                "fine".to_string()
+            } else {
+                format!("unconfigured {}", st)
+            }
+        }
+    })
+}
+
 impl Read for RcPort {
     fn read(&mut self, buf: &mut [u8]) -> io::Result<usize> {
         self.0.borrow_mut().read(buf)
